@@ -398,6 +398,8 @@ def collection_params_rebound(fn_node: ast.AST):
         elif isinstance(n, ast.Subscript) and isinstance(n.value, ast.Name):
             used_as_collection.add(n.value.id)
         elif isinstance(n, ast.Call) and isinstance(n.func, ast.Name) and n.func.id in ("len", "zip", "enumerate", "sorted", "sum", "min", "max", "any", "all"):
+            if n.func.id in ("min", "max") and len(n.args) > 1:
+                continue  # min(a, b) / max(a, b) compare scalars
             for arg in n.args:
                 if isinstance(arg, ast.Name):
                     used_as_collection.add(arg.id)
